@@ -7,7 +7,7 @@ META = {
              'parent, absolute paths to outside canaries, nested paths, unicode) x operations {exists, file_handle in '
              'r/w/a/x/rb/wb/r+/w+ (then read or write+close), delete} on a freshly built sandbox (storage dir with key '
              'dirs, plain file, symlinks; key dir containing file/dir symlinks pointing outside and a sub-directory; '
-             'outside canary files and dirs). Monitors: full file-system snapshot (type, bytes, link target of every '
+             'outside canary files and dirs); a quarter of the cases are multi-step histories on ONE sandbox / storage path / process (operations on a key, then the harness turns that key into a symlink to an outside directory, to the parent, to a sibling, into a plain file, or into a directory holding a file-symlink to outside, then more operations with the same or a new LocalStorage object). Monitors: full file-system snapshot (type, bytes, link target of every '
              'path under the sandbox) before/after each operation and a sys.addaudithook record of every open / '
              'mkdir / remove / rmdir / rename / rmtree / scandir / listdir under the sandbox during the operation; the '
              'thorough tier re-runs a sample under strace -f -e trace=%file and parses the syscall paths. Oracle: the '
